@@ -233,7 +233,7 @@ def main(tier):
             c.problem("correspondence", "render.xml", f"pipe failed: {r[:200]}", {"doc": hx(d), "opts": o, "observed": r[:500]})
             continue
         parts = r[3:].split(" | ")
-        if len(parts) != 6 or not parts[4].startswith("X "):
+        if len(parts) < 6 or not parts[4].startswith("X "):
             c.problem("correspondence", "render.xml", f"unexpected pipe output: {r[:200]}", {"doc": hx(d), "opts": o})
             continue
         parsed.append((d, o, parts[0], parts[4][2:]))
